@@ -31,7 +31,14 @@ impl io::Write for VecWriter {
     }
 }
 
-impl log4rs::encode::Write for VecWriter {}
+/// a sink that RENDERS styles (as the console writer on a colour terminal does): every style request shows in
+/// the bytes, so an encoder that asks for one is seen
+impl log4rs::encode::Write for VecWriter {
+    fn set_style(&mut self, _style: &log4rs::encode::Style) -> io::Result<()> {
+        self.0.extend_from_slice(b"\x1b[STYLE]");
+        Ok(())
+    }
+}
 
 /// accepts `budget` bytes in total (short writes at the boundary), then fails
 #[derive(Debug)]
